@@ -25,7 +25,8 @@ STATE_MEASURE = "distinct (number of recorded steps, feature-count trajectory, i
 COMPONENTS_REAL = ["gemclus.sparse._base_sparse._path (outer/inner loops, patience, best-score and best-weights rules), path() wrappers and restoration",
                    "compute_val_score, sparse estimators' fit / _update_weights / prox, GEMINIs, scikit-learn SGD optimiser"]
 COMPONENTS_STUB = ["compute_val_score interposer (calls the real function; records alpha, score, weight snapshot; carries the liveness budget)",
-                   "SimGemini NaN fault; BaseOptimizer.update_params real/teleport", "reference model of the path rule (this module)"]
+                   "SimGemini NaN fault; BaseOptimizer.update_params real/teleport", "reference model of the path rule (this module)",
+                   "crash at an arbitrary point: seams.LineCrash (sys.settrace) raises when the k-th source line of the library is about to run, in interrupted calls of the history"]
 ASSUMPTIONS = ["in-domain runs use alpha_0 >= 1e-3 and a multiplier > 1 so termination within the budget is implied by the geometric schedule",
                "the group-lasso penalty and feature count of a step are recomputed from the weight snapshot (tolerance 1e-12 relative)",
                "alphas must grow by the multiplier to 1e-12 relative (exact float product or an equivalent closed form)"]
